@@ -141,6 +141,10 @@ def engine_fire_rule(ctx):
                       "fire-the-tested-hook", "provenance", fph.loc(i), "the hook fired is the one tested", "fires another hook than the one tested")
 
 def run(ctx):
+    from .C15 import cached_slot_types_agree
+    cached_slot_types_agree(ctx)
+    from .C13 import merge_writes_only_overridable_parts
+    merge_writes_only_overridable_parts(ctx)
     from .C13 import handoff_queue_fifo
     handoff_queue_fifo(ctx)
     saved_context_is_a_copy(ctx, "C07")
